@@ -44,6 +44,7 @@ type topo struct {
 	Counts []int    `json:"counts"`
 	Conc   bool     `json:"concurrent"`
 	Tight  int      `json:"tight_member"` // cooked BUS member with READQ-LEN 1 (may itself miss messages; what it sends must still reach everybody), -1: none
+	Stale  string   `json:"stale_header"` // cooked members send with SendMsg on a message that still carries a header: "" | "8bytes" | "pipeid" (4 bytes naming one of the sender's own pipes)
 	Fwd    string   `json:"forwarder"` // raw BUS members forward with Device, a RecvMsg/SendMsg loop, or a loop that re-sends every message twice through a Clone
 	Tr     string   `json:"transport"`
 	RSeed  string   `json:"rseed"`
@@ -103,6 +104,7 @@ func genTopo(t *rapid.T) topo {
 	}
 	tp.Conc = rapid.Bool().Draw(t, "concurrent")
 	tp.Fwd = "device"
+	tp.Stale = rapid.SampledFrom([]string{"", "", "8bytes", "pipeid"}).Draw(t, "staleHeader")
 	tp.Tight = -1
 	if (tp.Kind == "bus-mesh" || tp.Kind == "bus-chain") && rapid.IntRange(0, 2).Draw(t, "tight") == 0 {
 		tp.Tight = rapid.IntRange(0, tp.N-1).Draw(t, "tightMember")
@@ -279,6 +281,19 @@ func TestC08(t *testing.T) {
 			if star && tp.Raw[i] {
 				m.Header = append(m.Header, 0, 0, 0, 0)
 			}
+			if !tp.Raw[i] {
+				// a cooked socket takes no header from the application: whatever a re-used message
+				// still carries (say, the routing header of the raw socket it came from) is ignored
+				switch tp.Stale {
+				case "8bytes":
+					m.Header = append(m.Header, 0x80, 0, 0, 1, 0x80, 0, 0, 2)
+				case "pipeid":
+					if pl := evs[i].PipeList(); len(pl) > 0 {
+						id := pl[0].ID()
+						m.Header = append(m.Header, byte(id>>24), byte(id>>16), byte(id>>8), byte(id))
+					}
+				}
+			}
 			err := socks[i].SendMsg(m)
 			if err != nil {
 				m.Free()
@@ -454,6 +469,9 @@ func TestC08(t *testing.T) {
 		if tp.Tight >= 0 {
 			stats.Class("member_with_readq_1")
 		}
+		if tp.Stale != "" {
+			stats.Class("cooked_send_with_stale_header")
+		}
 		if tp.Kind == "bus-chain-fwd" && firstRaw(tp) >= 0 {
 			stats.Class("forwarder:" + tp.Fwd)
 		}
@@ -462,7 +480,7 @@ func TestC08(t *testing.T) {
 			stats.Class("concurrent")
 		}
 		if tp.N >= 3 {
-			stats.NonTrivial(fmt.Sprintf("%s|%v|%v|%v|%v|%s|%s", tp.Kind, tp.Edges, tp.Raw, tp.Counts, tp.Conc, tp.Tr, tp.Fwd+fmt.Sprint(tp.Tight)))
+			stats.NonTrivial(fmt.Sprintf("%s|%v|%v|%v|%v|%s|%s", tp.Kind, tp.Edges, tp.Raw, tp.Counts, tp.Conc, tp.Tr, tp.Fwd+fmt.Sprint(tp.Tight)+tp.Stale))
 		}
 		stats.Sample(tp)
 	})
